@@ -56,7 +56,8 @@ def regime(m, n):
     return "m<n" if m < n else "m=n" if m == n else "m>n"
 
 
-def check_single(A, v, Qd, Td, m, tol, dt, kdim, detectable, K=None, spec=None, eigA=None, assert_count=True):
+def check_single(A, v, Qd, Td, m, tol, dt, kdim, detectable, K=None, spec=None, eigA=None, assert_count=True,
+                 hs=None):
     """Property clauses on one (Q, T).  Returns list of (clause, detail, extra attrs)."""
     out = []
     n = A.shape[0]
@@ -65,11 +66,15 @@ def check_single(A, v, Qd, Td, m, tol, dt, kdim, detectable, K=None, spec=None, 
     cap = min(m, n)
     c = Qd.shape[1] if Qd.ndim == 2 else -1
     if Qd.ndim != 2 or Qd.shape[0] != n or Td.shape != (c, c) or c < 1:
-        return [("column_count", f"shapes Q {Qd.shape} T {Td.shape} for n={n} max_iters={m}", {"excess": "shape"})]
+        return [("column_count", f"shapes Q {Qd.shape} T {Td.shape} for n={n} max_iters={m}", {"excess": "shape"})], kdim, detectable
     if not (np.all(np.isfinite(Qd)) and np.all(np.isfinite(Td))):
-        return [("finite", "non-finite entries in Q or T", {})]
+        return [("finite", "non-finite entries in Q or T", {})], kdim, detectable
     if c > cap:
         out.append(("column_count", f"{c} columns > min(max_iters, n) = {cap}", {"excess": "more", "beyond_cap": True}))
+    kdim_in = kdim
+    kdim, detectable = kf.gate(hs, kdim, n, tol, sA, detectable, c, cap)
+    if kdim != kdim_in:
+        spec = None     # numerically invariant subspace reached before the exact one: no exact spectrum to compare
     exp = min(cap, kdim) if kdim is not None else None
     ce = c
     if exp is not None and assert_count:
@@ -144,7 +149,7 @@ def check_single(A, v, Qd, Td, m, tol, dt, kdim, detectable, K=None, spec=None, 
         if dist.max() > etol:
             out.append(("ritz", f"stopped after {c} < min(max_iters, n) columns but eig(T) is off the spectrum of A by "
                         f"{kf.fmt(dist.max())}", {"at": "early_stop"}))
-    return out
+    return out, kdim, detectable
 
 
 def dense_T(T, b=None):
@@ -271,6 +276,15 @@ def run_family(item, A, vs, kdims, Ks, specs, eigA, detect_ok, ms, count_ok=True
     herm = cola.SelfAdjoint(cola.ops.Dense(A_t))
     viol, traces, nchk = [], [], 0
     batched = len(vs) > 1
+    jmax = 6 if dt in ("f64", "c128") else 4
+    thr = 1e-6 if dt in ("f64", "c128") else 1e-2
+    hss = []
+    Ks = list(Ks)
+    for b, x in enumerate(vs):
+        Kr, hs = kf.ref_for(A_t, x.astype(npd), kdims[b], n, jmax, thr, detect_ok)
+        hss.append(hs if kdims[b] is not None else None)
+        if Ks[b] is None:
+            Ks[b] = Kr
     for m in ms:
         if item.get("only_m") is not None and m != item["only_m"]:
             continue
@@ -281,8 +295,8 @@ def run_family(item, A, vs, kdims, Ks, specs, eigA, detect_ok, ms, count_ok=True
                 Q, T, info, tr = call_lanczos(herm, v, m, tol, n, tag)
                 traces += tr
                 Qd, Td = np.asarray(Q.to_dense()), dense_T(T)
-                res = check_single(A_t, v, Qd, Td, m, tol, dt, kdims[0], detectable, Ks[0], specs[0], eigA,
-                                   assert_count=count_ok)
+                res, kd_eff, det_eff = check_single(A_t, v, Qd, Td, m, tol, dt, kdims[0], detectable, Ks[0], specs[0],
+                                                    eigA, assert_count=count_ok, hs=hss[0])
                 nchk += 1
                 for cl, de, ex in res:
                     viol.append(mk_viol(item, cl, de, m, ex, n, kdims[0], False, "lanczos", dt, tol))
@@ -291,10 +305,10 @@ def run_family(item, A, vs, kdims, Ks, specs, eigA, detect_ok, ms, count_ok=True
                 if item.get("eigs", True):
                     ev, Vd, _, tr2 = call_eigs(herm, v, m, tol, n, tag + "|eigs")
                     traces += tr2
-                    exh = (kdims[0] is not None and Td.shape[0] == kdims[0] and (detectable or kdims[0] == n)
-                           and not count_bad and count_ok)
+                    exh = (kd_eff is not None and kd_eff == kdims[0] and Td.shape[0] == kd_eff
+                           and (det_eff or kd_eff == n) and not count_bad and count_ok)
                     nchk += 1
-                    vo = count_bad or (kdims[0] is not None and Td.shape[0] > min(m, n, kdims[0]))
+                    vo = count_bad or (kd_eff is not None and Td.shape[0] > min(m, n, kd_eff))
                     for cl, de, ex in check_eigs(A_t, Qd, Td, ev, Vd, m, tol, dt, exh, specs[0], values_only=vo):
                         viol.append(mk_viol(item, cl, de, m, ex, n, kdims[0], False, "lanczos_eigs", dt, tol))
                 # the algorithm object gives the same factorisation
@@ -341,8 +355,8 @@ def run_family(item, A, vs, kdims, Ks, specs, eigA, detect_ok, ms, count_ok=True
                     Td = dense_T(T, b)
                     kb = kdims[b]
                     keep = c if kb is None else min(c, kb, cap)
-                    res = check_single(A_t, V[:, b], QA[b][:, :keep], Td[:keep, :keep], m, tol, dt, kb, detectable,
-                                       Ks[b], specs[b], eigA, assert_count=False)
+                    res, _, _ = check_single(A_t, V[:, b], QA[b][:, :keep], Td[:keep, :keep], m, tol, dt, kb, detectable,
+                                             Ks[b], specs[b], eigA, assert_count=False, hs=hss[b])
                     for cl, de, ex in res:
                         ex = dict(ex)
                         ex["element"] = b
@@ -405,16 +419,7 @@ def observe_random(item):
     uniq = np.unique(lam)
     gaps_ok = sep and (len(uniq) < 2 or np.min(np.diff(uniq)) > 1e-3 * max(1.0, np.abs(lam).max()))
     count_ok = gaps_ok and (max(kdims) <= 12 or vk == "generic" and kind in ("pd", "indef") and n <= 40)
-    jmax = 6 if item["dt"] in ("f64", "c128") else 4
-    Ks = []
-    thr = 1e-6 if item["dt"] in ("f64", "c128") else 1e-2
-    sA = float(np.abs(A).sum(1).max())
-    for v, kd in zip(vs, kdims):
-        Qr, hs = kf.ref_krylov(A, v, min(jmax, kd if gaps_ok else jmax, n))
-        j = 1       # K_(j+1) is well defined in the working precision only while the residuals stay large
-        while j < Qr.shape[1] and hs[j - 1] > thr * sA:
-            j += 1
-        Ks.append(Qr[:, :j])
+    Ks = [None] * nb
     specs = []
     for v in vs:
         specs.append(None)
@@ -452,7 +457,7 @@ def default_object_check(seed):
         Qd, Td = np.asarray(Q.to_dense()), dense_T(T)
         n_chk += 1
         v0 = Qd[:, 0] if Qd.ndim == 2 and Qd.shape[1] else np.ones(n)
-        for cl, de, ex in check_single(A, v0, Qd, Td, 1000, 1e-6, dt, n, True, None, None, lam):
+        for cl, de, ex in check_single(A, v0, Qd, Td, 1000, 1e-6, dt, n, True, None, None, lam)[0]:
             viol.append(mk_viol(item, cl, de, 1000, ex, n, n, False, "Lanczos()", dt, 1e-6))
     return viol, traces, n_chk
 
@@ -468,7 +473,9 @@ def plan(cs, tier, seed):
     for mat, lst in by_mat.items():
         real = all(c["real"] for c in lst)
         for c in lst:
-            dts = (["f32", "f64", "c64", "c128"] if c["real"] else ["c64", "c128"])
+            dts = (["f64", "c64", "f32", "c128"] if c["real"] else ["c128", "c64"])
+            if quick:
+                dts = dts[:2]
             for dt in dts:
                 tols = [1e-7, 1e-4, 1e-11] if dt in ("f64", "c128") else [1e-7, 1e-3]
                 if quick:
@@ -514,7 +521,7 @@ def plan(cs, tier, seed):
                             ms = sorted({1, 2, 3, 7, n // 2, n - 1, n, n + 1, n + 50, 1000})
                             if n >= 100:
                                 ms = sorted({1, 5, n // 3, n, n + 50}) if quick else sorted({1, 2, 5, n // 3, n - 1, n, n + 1, 1000})
-                        for tol in tols:
+                        for tol in tols * (1 if quick or n > 64 else 3):
                             items.append({"src": "random", "name": f"rand-{kind}-{'c' if cplx else 'r'}-n{n}-{vk}",
                                           "seed": int(rng.randint(1 << 30)), "n": n, "kind": kind, "cplx": cplx,
                                           "vkind": vk, "k": int(rng.randint(2, 5)), "dt": dt, "tol": tol, "ms": ms,
@@ -557,7 +564,7 @@ def run(tier):
             traces_v = [traces[int(i * step)] for i in range(cap_tr)]
         else:
             traces_v = traces
-        slim = [{k: t[k] for k in ("alg", "n", "m", "b", "evs", "buf", "fin")} for t in traces_v]
+        slim = [{k: t[k] for k in ("alg", "n", "m", "mb", "b", "evs", "buf", "fin")} for t in traces_v]
         verdicts, tres, neg = kf.validate_traces(PROP, wd, slim)
         for k, t in enumerate(traces_v, start=1):
             vd = verdicts[k]
@@ -569,9 +576,10 @@ def run(tier):
                                        "batched": t["b"] > 1, "trace_clause": vd["clause"], "api": "lanczos_fact"},
                                       f"recorded loop execution rejected by Trace_LoopControl at event {vd['at']}: "
                                       f"{vd['clause']} (events {t['evs'][-3:]}, fin {t['fin']})",
-                                      replay={"trace": {k2: t[k2] for k2 in ("alg", "n", "m", "b", "evs", "buf", "fin")}}))
+                                      replay={"trace": {k2: t[k2] for k2 in ("alg", "n", "m", "mb", "b", "evs", "buf", "fin")}}))
     finally:
         common.cleanup(wd)
+    viol, n_viol_raw = kf.cap_violations(viol)
     cat_items = [it for it in items if it["src"] == "catalog"]
     samples = [f"{it['name']} {it['dt']} tol={it['tol']:g}" for it in items[:: max(1, len(items) // 6)][:6]]
     cov = {
@@ -584,7 +592,7 @@ def run(tier):
         "catalog_cases": stats["catalog_cases"], "catalog_hermitian_cases": len([c for c in cs if c["herm"]]),
         "catalog_items": len(cat_items), "random_items": len(items) - len(cat_items),
         "mc_krylov_states": stats["mc_krylov_states"], "mc_loopcontrol_states": stats["mc_loopcontrol_states"],
-        "trace_states": tres.distinct, "traces_recorded": len(traces), "negative_controls_rejected": neg,
+        "violations_before_dedup_cap": n_viol_raw, "trace_states": tres.distinct, "traces_recorded": len(traces), "negative_controls_rejected": neg,
         "tlc_wall_s": stats["tlc_wall_s"] + round(tres.wall, 1),
         "checker_cmd": "tlc MC_Krylov.tla (Krylov.tla, LoopControl.tla, generated KrylovCatalog.tla) ; "
                        "tlc MC_LoopControl.tla ; tlc Trace_LoopControl.tla",
